@@ -155,7 +155,14 @@ func GenBeacon(prop string, seed uint64, tier string) *BeaconScenario {
 		sc.ExpectNone = k < sc.T
 		faultRounds = r.Range(4, 8)
 		faultEnd = g0 + int64(faultRounds)*periodMs
-		kinds := []string{"dup", "wrong_round", "wrong_prev", "random_scalar", "other_index", "victim_index", "nonmember_index", "truncated", "bitflip", "replay_old", "future", "flood"}
+		// below the threshold the byzantine members must not contribute anything valid
+		kinds := []string{"wrong_round", "random_scalar", "other_index", "victim_index", "nonmember_index", "truncated", "bitflip"}
+		if sc.Scheme == SchemeNames[0] {
+			kinds = append(kinds, "wrong_prev")
+		}
+		if !sc.ExpectNone {
+			kinds = append(kinds, "dup", "valid", "replay_old", "future", "flood", "wrong_prev")
+		}
 		for i, ro := range sc.Roles {
 			if ro != "byz" {
 				continue
